@@ -52,10 +52,10 @@ def options(cx, **extra):
 
 
 class Outcome:
-    __slots__ = ("kind", "value", "errors", "exc", "msg")
+    __slots__ = ("kind", "value", "errors", "exc", "msg", "site", "error")
 
-    def __init__(self, kind, value=None, errors=None, exc=None, msg=None):
-        self.kind, self.value, self.errors, self.exc, self.msg = kind, value, errors, exc, msg
+    def __init__(self, kind, value=None, errors=None, exc=None, msg=None, site=None, error=None):
+        self.kind, self.value, self.errors, self.exc, self.msg, self.site, self.error = kind, value, errors, exc, msg, site, error
 
     def brief(self):
         if self.kind == "ok":
@@ -76,12 +76,30 @@ def call(fn, *a, **kw) -> Outcome:
             errs = e.errors
         except Exception as e2:  # errors list not computable
             return Outcome("exc", exc="errors:" + type(e2).__name__, msg=str(e2))
-        return Outcome("verr", errors=errs)
+        return Outcome("verr", errors=errs, error=e)
     except RecursionError as e:
-        return Outcome("exc", exc="RecursionError", msg=str(e))
+        return Outcome("exc", exc="RecursionError", msg=str(e), site="recursion")
     except Exception as e:
-        return Outcome("exc", exc=type(e).__name__, msg=str(e))
+        return Outcome("exc", exc=type(e).__name__, msg=_safe_str(e), site=_site(e))
     return Outcome("ok", value=v)
+
+
+def _safe_str(e):
+    try:
+        return str(e)
+    except Exception:
+        return "<str failed>"
+
+
+def _site(e):
+    """innermost frame inside the apischema package: 'module.function' (witness feature)"""
+    tb, site = e.__traceback__, None
+    while tb is not None:
+        fn = tb.tb_frame.f_code.co_filename
+        if "/apischema/" in fn:
+            site = fn.split("/apischema/")[-1][:-3].replace("/", ".") + ":" + tb.tb_frame.f_code.co_name
+        tb = tb.tb_next
+    return site
 
 
 def tree_classes(method, counter: Counter, limit=400):
